@@ -60,7 +60,9 @@ class Variables:
 
     def inline_variables(self, sql: str) -> str:
         for name, value in self._variables.items():
-            sql = re.sub(rf"\${name}", value, sql, flags=re.IGNORECASE)
+            # match the whole variable name only (ie: not $var1 in $var10) and insert the value verbatim
+            # (ie: not as a regex template in which backslashes are special)
+            sql = re.sub(rf"\${re.escape(name)}(?!\w)", lambda _, value=value: value, sql, flags=re.IGNORECASE)
 
         if remaining_variables := re.search(r"(?<!\$)\$\w+", sql):
             raise snowflake.connector.errors.ProgrammingError(
